@@ -212,7 +212,15 @@ pub fn find_module(
     let extension = "koto";
     let result = search_folder.join(module_name).with_extension(extension);
     if result.exists() {
-        Ok(result)
+        // The module name can contain relative components (e.g. '../foo'), and the path is used as
+        // the module's key in the module cache, so it needs to be canonicalized.
+        canonicalize(&result).map_err(|error| {
+            ModuleLoaderErrorKind::FailedToCanonicalizePath {
+                path: result,
+                error,
+            }
+            .into()
+        })
     } else {
         // Alternatively, check for a neighboring directory with a matching name,
         // that also contains a main file.
